@@ -1,7 +1,6 @@
 (* C05: re-using a parser object gives what a fresh one gives EXACTLY WHEN parse() resets both scratch maps first. *)
 From Coq Require Import Ascii String.
-From Clikit Require Import Base.Prelude Base.Res Model.Conv Model.Flags Model.Format Model.Parser Model.ParserState
-                           Proofs.ParserLemmas.
+From Clikit Require Import Base.Prelude Base.Res Model.Conv Model.Flags Model.Format Model.Parser Proofs.ParserLemmas.
 
 (* ---------- the translated parse is the state-taking body started from empty maps ---------- *)
 Lemma parse_on_is_parse_from_empty st0 f len toks : parse_on st0 f len toks = parse_from ps_empty f len toks.
@@ -86,4 +85,22 @@ Proof.
       specialize (H {| ps_args := []; ps_opts := [(ReuseWitness.s "num", OStr (ReuseWitness.s "5"))] |} ReuseWitness.F false []).
       destruct a; vm_compute in H; discriminate.
   - intros ->. intros st0 f len toks. reflexivity.
+Qed.
+
+(* ---------- the wire entry: with "both maps reset" it is the entry of the code as it is ---------- *)
+Lemma run_requests_obj_both fs extra reqs : forall st,
+  run_requests_obj RESET_BOTH fs extra st reqs = run_requests fs extra st reqs.
+Proof.
+  induction reqs as [|[[i len] toks] rest IH]; intros st; cbn [run_requests_obj run_requests]; [reflexivity|].
+  destruct (nth_error fs i) as [f|]; [|reflexivity].
+  rewrite <- parse_on_is_parse_obj. destruct (parse_on st f len toks) as [st' res]. rewrite IH. reflexivity.
+Qed.
+Lemma run_C05_both_lemma fmts reqs extra : run_C05 (L [fmts; reqs; extra; A 0%Z]) = run_C05_asis (L [fmts; reqs; extra]).
+Proof.
+  cbn [run_C05 run_C05_asis resets_of].
+  destruct (dList (dList (dList dec_element)) fmts) as [fl|]; [|reflexivity].
+  destruct (dList dec_request reqs) as [rl|]; [|reflexivity].
+  destruct (dList dStr extra) as [el|]; [|reflexivity].
+  destruct (build_formats fl) as [fs|k]; [|reflexivity].
+  rewrite run_requests_obj_both. reflexivity.
 Qed.
